@@ -108,7 +108,7 @@ CHECKS = {
     "C08": dict(
         jobs=rc_jobs("c08", "C08", "overlap_mutators,cas_epoch_differs", focused="c08r"),
         rule=RULE_RC + "a cell history with >=2 overlapping mutators, or a CAS whose expected value carried another epoch stamp than the stored word",
-        accept=["C08"], accept_sig=[r"^C04\|audit-strong-mismatch"], assumptions=RC_ASSUME, floor=dict(quick=50, thorough=500),
+        accept=["C08"], accept_sig=[r"^C04\|audit-strong-mismatch", r"^C04\|leak-unowned-object"], assumptions=RC_ASSUME, floor=dict(quick=50, thorough=500),
     ),
     "C09": dict(
         jobs=rc_jobs("c09", "C09", "overlap_mutators,wcas_epoch_differs", focused="c09r"),
